@@ -72,7 +72,7 @@ IdSets == IF U = "parse" THEN << {"id"}, {} >> ELSE IF U = "rand" THEN << {"i"},
 \* c17b: several complex rules sharing one leading class / id, with exceptions naming some of them
 PoolC17b == << HideR({}, ".a .b"), HideR({}, ".a > #i"), HideR({}, ".a:hover"), HideR({}, ".a"), HideR({}, "#i .q"), HideR({}, "#i > .a"),
                HideR({}, "#i"), UnhideR({H("a.com")}, ".a > #i"), UnhideR({H("a.com")}, ".a .b"), UnhideR({H("a.com")}, "#i .q"),
-               UnhideR({H("a.com")}, ".a") >>
+               UnhideR({H("a.com")}, ".a"), UnhideR({H("a.com")}, "#i") >>
 
 --------------------------------------------------------------------------
 \* c18: permissions, dependencies, argument spellings
